@@ -18,6 +18,11 @@ def plan(tier):
         {"kind": "c06", "cfg": lc.cfg(d=4, t=1), "count": n // 6, "maxops": mo},
         {"kind": "c06", "cfg": lc.cfg(d=2, t=0), "count": n // 2, "maxops": mo},
         {"kind": "c06", "cfg": lc.cfg(d=3, t=0), "count": n // 4, "maxops": mo},
+        # element kinds that separate the traits the code branches on (value-initialisation of new elements):
+        # 2 = not trivially default constructible but trivially destructible, 3 = trivial default constructor, not is_trivial
+        {"kind": "c06", "cfg": lc.cfg(d=2, t=2), "count": n // 3, "maxops": mo},
+        {"kind": "c06", "cfg": lc.cfg(d=3, t=2), "count": n // 6, "maxops": mo},
+        {"kind": "c06", "cfg": lc.cfg(d=2, t=3), "count": n // 4, "maxops": mo},
     ]
 
 
@@ -51,7 +56,10 @@ def run(tier, seed, replay=None):
              "assign(extensions, value), interleaved with the other mutating operations; new extensions are the old ones, "
              "the old ones +-2 per dimension (and shifted by +-1 when index bases are drawn), or independent; extents 0..5 per "
              "dimension incl. zero inner extents next to non-zero outer ones; extensions and every element compared after "
-             "every call; block identity compared for the same-extensions no-op; non-trivial = at least 4 operations",
+             "every call; block identity compared for the same-extensions no-op; element kinds: tracked class, int, "
+             "struct{int v = 0;} (not trivially default constructible, trivially destructible: new elements must read 0) and a "
+             "type with a trivial default constructor and user-provided copy (not is_trivial: new elements keep the 0xCD paint); "
+             "non-trivial = at least 4 operations",
         not_exercised=["rank 0", "reextent of arrays larger than 40 elements"],
         assumptions=["reshape is called with the same element count (its assertion)"],
         extra_checks=extra_checks)
